@@ -492,3 +492,19 @@ Example source_header_nonvacuous :
   socket_parseHeader (sock_make_header 5 7) = GRet (5, 7, true) /\
   udp_parseHeader (udp_make_header 5 (Z.lor 7 32768)) = GRet (5, 7, false).
 Proof. vm_compute. repeat split. Qed.
+
+(* rpc/websocket/common.go makeHeader/parseHeader as regenerated from the source (T2): equal to the hand model, and
+   the index prefix round trip holds of the source for EVERY index word *)
+From HV Require Import Proofs.GoFuncsWsProofs.
+Theorem C12_source_header_roundtrip_ws : forall index,
+  exists h, ws_makeHeader index = GRet h /\
+            ws_parseHeader h = GRet ((index mod 4294967296) mod 2147483648, index mod 4294967296 <? 2147483648).
+Proof. exact ws_source_roundtrip. Qed.
+Print Assumptions C12_source_header_roundtrip_ws.
+
+Theorem C12_source_ws_refines_model :
+  (forall index, ws_makeHeader index = GRet (ws_make_header index)) /\
+  (forall a b c d, ws_parseHeader [a; b; c; d] = GRet (ws_parse_header a b c d)) /\
+  (forall h, (List.length h < 4)%nat -> ws_parseHeader h = GPanic).
+Proof. exact (conj ws_makeHeader_refines (conj ws_parseHeader_refines ws_parseHeader_short)). Qed.
+Print Assumptions C12_source_ws_refines_model.
